@@ -121,6 +121,10 @@ pub struct ConsumerSpec {
     pub chain: Vec<StageSpec>,
     /// Also create the same chain on the other stream flavour (C13: batched == unbatched).
     pub twin: bool,
+    /// Poll with one and the same waker every time (what an executor does for a task) instead of a
+    /// fresh waker per poll: exposes code that skips registration when `will_wake` says "same".
+    #[serde(default)]
+    pub same_waker: bool,
 }
 
 #[derive(Clone, Copy, Debug, Serialize, Deserialize, PartialEq, Eq)]
